@@ -123,3 +123,14 @@ Proof.
     destruct (check_path_major v pm); split; auto; try discriminate.
     intros (_ & _ & H). discriminate.
 Qed.
+
+(* a valid module path always splits, and its suffix has the documented shape *)
+Theorem check_module_path_split_ok p :
+  check_module_path p = None ->
+  exists pre suf, split_path_version p = (pre, suf, true) /\ pre ++ suf = p /\ suffix_shape p suf.
+Proof.
+  intros Hm. apply check_module_path_none in Hm. destruct Hm as (_ & _ & _ & _ & _ & Hok).
+  destruct (split_path_version p) as [[pre pm] ok] eqn:Hs. simpl in Hok. subst ok.
+  exists pre, pm. split; [reflexivity|]. apply split_spec in Hs. destruct Hs as (E & Hshape & _).
+  split; [exact E | apply Hshape; reflexivity].
+Qed.
